@@ -230,9 +230,11 @@ impl Prop for C13 {
     fn check(&self, c: &Case, ctx: &mut Ctx) -> Outcome {
         check_case(c, ctx)
     }
-    fn extras(&self, _tier: Tier, _seed: u64, shard: u32, nshards: u32, sink: &mut dyn FnMut(Case, &'static str)) {
-        let lat = [-0.0, 0.0, 1.0, ppv_exact::next_up(1.0)];
-        let lists = enumerate_multisets(&lat, 3);
+    fn extras(&self, tier: Tier, _seed: u64, shard: u32, nshards: u32, sink: &mut dyn FnMut(Case, &'static str)) {
+        let lat4 = vec![-0.0, 0.0, 1.0, ppv_exact::next_up(1.0)];
+        let lat5 = vec![-1.0, -0.0, 0.0, 1.0, ppv_exact::next_up(1.0)];
+        let (lat, maxn) = tier.pick((lat4, 3), (lat5, 4));
+        let lists = enumerate_multisets(&lat, maxn);
         let mut n = 0u32;
         for fe in &lists {
             for ge in &lists {
@@ -254,8 +256,8 @@ impl Prop for C13 {
             }
         }
     }
-    fn exhaustive_scopes(&self, _tier: Tier) -> Vec<String> {
-        vec!["all ordered pairs of sorted multisets of 1..=3 ends over {-0.0, 0.0, 1, nextup(1)} x {+,-}, each judged at its whole union alphabet".into()]
+    fn exhaustive_scopes(&self, tier: Tier) -> Vec<String> {
+        vec![format!("all ordered pairs of sorted multisets of 1..={} ends over {} x {{+,-}}, each judged at its whole union alphabet", tier.pick(3, 4), tier.pick("{-0.0, 0.0, 1, nextup(1)}", "{-1, -0.0, 0.0, 1, nextup(1)}"))]
     }
     fn from_bytes(&self, u: &mut Unstructured) -> Option<Case> {
         let kind: u8 = u.arbitrary().ok()?;
